@@ -350,7 +350,8 @@ Step(S, e) ==
                     IfBad(e.k = 0, "C08.clean") \cup
                     IfBad(\A i \in 1..Len(e.xs) : e.xs[i] = 0, "C07.restore") \cup
                     IfBad(~IsEscape(e.v) => (rootDone /\ S.fut[root].v = e.v), "C01.conv") \cup
-                    IfBad((rootDone /\ IsX(e.v) /\ ~IsEscape(e.v)) => S.fut[root].u = e.u, "C02.prop") \cup
+                    \* an exception raised by value() is the root task's own failure (the same instance)
+                    IfBad((IsX(e.v) /\ ~IsEscape(e.v)) => (rootDone /\ S.fut[root].u = e.u), "C02.prop") \cup
                     (IF S.ref # <<>> THEN IfBad(e.v = S.ref[root], "C01.ret") ELSE {}) \cup
                     IfBad((NoFaultyCtx(P) /\ ~HasCtxType(P, "nonasync") /\ ~IsEscape(e.v)) => \A t \in Tasks(S) \ S.aband : S.ts[t].seg > 0 => FutDone(S, t), "C03.term") \cup
                     IfBad(\A b \in DOMAIN S.bat : S.bat[b].nbefore = S.bat[b].nafter, "C05.events") \cup
